@@ -17,9 +17,10 @@ CASES = []
 for meta in sorted(glob.glob(os.path.join(HERE, "seeded", "*", "meta.json"))):
     m = json.load(open(meta, encoding="utf-8"))
     d = os.path.dirname(meta)
+    caught = m["breaks_property"] in m.get("caught_by", [])
     CASES.append((m["breaks_property"], "seeded/" + os.path.basename(d),
                   "<patch>", os.path.join(d, "patch.diff"), None,
-                  "violation", None))
+                  "violation" if caught else "documented-miss", None))
 
 
 def V(pid, label, path, old, new, rule=None):
